@@ -70,14 +70,16 @@ func sibling() *Machine {
 			// loop: INC A; palettes, scroll, window, wave RAM, envelope, sweep, serial, TMA, an OAM DMA transfer, work RAM;
 			// channel 1 restarted (LD B,A; LD A,87; LDH (14),A; LD A,B); JR loop
 			0x3c, 0xe0, 0x47, 0xe0, 0x48, 0xe0, 0x49, 0xe0, 0x42, 0xe0, 0x43, 0xe0, 0x4a, 0xe0, 0x4b, 0xe0, 0x30, 0xe0, 0x12, 0xe0, 0x10, 0xe0, 0x01, 0xe0, 0x06, 0xe0, 0x46, 0x77,
-			0x47, 0x3e, 0x87, 0xe0, 0x14, 0x78, 0x18, 0xdc)
+			// timer control, JOYP select, STAT, LYC, channels 2-4, volume and routing
+			0xe0, 0x07, 0xe0, 0x00, 0xe0, 0x41, 0xe0, 0x45, 0xe0, 0x16, 0xe0, 0x17, 0xe0, 0x18, 0xe0, 0x19, 0xe0, 0x1a, 0xe0, 0x1c, 0xe0, 0x1e, 0xe0, 0x21, 0xe0, 0x22, 0xe0, 0x23, 0xe0, 0x24, 0xe0, 0x25,
+			0x47, 0x3e, 0x87, 0xe0, 0x14, 0x78, 0x18, 0xbc)
 		siblingROM = rom
 	}
 	b, err := New(siblingROM, Opts{noBystander: true})
 	if err != nil {
 		panic("rig: the bystander machine does not load: " + err.Error())
 	}
-	for k := 0; k < 240; k++ { // start-up, the interrupt and more than one pass through its loop
+	for k := 0; k < 330; k++ { // start-up, the interrupt and more than one pass through its loop
 		b.Step()
 	}
 	Siblings++
@@ -213,7 +215,22 @@ func (m *Machine) Drain() {
 }
 
 // PeekOpcode returns the byte at PC (plain read through the mapper).
-func (m *Machine) PeekOpcode() uint8 { return m.Mem.Read(m.CPU.XGetRegs().PC) }
+func (m *Machine) PeekOpcode() uint8 {
+	pc := m.CPU.XGetRegs().PC
+	if pc >= 0xfe00 && pc < 0xff00 {
+		// a read of FE00-FEFF through the mapper counts as an access (it can arm the emulated OAM
+		// bug): the harness looks at the snapshot instead, with the same transfer/unused-area rules
+		if run, _ := m.OAM.XDMA(); run {
+			return 0xff
+		}
+		if pc >= 0xfea0 {
+			return 0
+		}
+		s := m.OAM.XSnapshot()
+		return s[pc-0xfe00]
+	}
+	return m.Mem.Read(pc)
+}
 
 // IsUndefinedOpcode reports whether op is one of the 11 undefined base opcodes.
 func IsUndefinedOpcode(op uint8) bool {
@@ -234,4 +251,12 @@ func (m *Machine) Quiet() {
 	m.IRQ.Disable()
 	m.Mem.Write(0xffff, 0)
 	m.Mem.Write(0xff0f, 0)
+}
+
+// SiblingPC returns the younger bystander's program counter (for self-tests of the rig).
+func SiblingPC() uint16 {
+	if younger == nil {
+		return 0
+	}
+	return younger.CPU.XGetRegs().PC
 }
